@@ -33,6 +33,7 @@ var generators = map[string]genFunc{
 	"rollout": GenRollout,
 	"own":     GenOwn,
 	"health":  GenHealth,
+	"snap":    GenSnap,
 }
 
 type runSummary struct {
